@@ -133,6 +133,8 @@ func runC02(p *Prog, r *Report) {
 	nullableFieldDerefs(p, r, "D1-nullable-fields", fns)
 	r.Rule("D4-decoder-loops", "a json More() loop is left when Decode fails (the decoder's error is sticky)")
 	decoderLoopsStopOnError(p, r, "D4-decoder-loops", fns)
+	r.Rule("D1-nil-local", "a local pointer that is nil on some path into a merge point is tested before it is dereferenced")
+	nilLocalDerefs(p, r, "D1-nil-local", fns, auditedC02)
 	r.Rule("D1-nil-decode", "pointers that JSON/YAML decoding may leave nil are tested before they are dereferenced")
 	inScope := map[*ssa.Function]bool{}
 	for _, f := range fns {
